@@ -2,6 +2,7 @@ import EpModel.Lemmas.CodecNetIpv6
 import EpModel.Lemmas.CodecNetIpv6Frag
 import EpModel.Lemmas.CodecNetIpv4
 import EpModel.Lemmas.CodecNetAuth
+import EpModel.Lemmas.CodecNetRawExt
 /-
   C08 (network-layer half) — every header value survives encode → decode unchanged.
 
@@ -401,5 +402,80 @@ example : IpAuthHeader.WF IpAuthHeader.sampleMax := by
   refine ⟨by decide, by decide, by decide, ?_, ?_⟩ <;> rw [hl] <;> decide
 
 end Auth
+
+/-! ## Ipv6RawExtHeader -/
+namespace RawExt
+open EpModel.Lemmas.CodecNet.RawExt
+
+/-- `to_bytes` and `write` produce the same `header_len()` = 2 + payload bytes; `payload()` is
+    the payload. -/
+theorem encoders_agree (h : Ipv6RawExtHeader) (wf : h.WF) :
+    h.toBytes = h.writeOut ∧ h.toBytes.length = h.headerLen ∧ h.payloadAcc = h.payload := by
+  refine ⟨rfl, ?_, payloadAcc_eq h wf⟩
+  rw [toBytes_length h wf, headerLen_eq h wf]
+
+theorem decode_encode (h : Ipv6RawExtHeader) (tail : Bytes) (wf : h.WF) :
+    Ipv6RawExtHeader.fromSlice (h.toBytes ++ tail) = .ok (h, tail) := by
+  unfold Ipv6RawExtHeader.fromSlice
+  rw [slice_of_toBytes h tail wf]
+  simp only [toHeader_toBytes h wf]
+  rw [List.drop_left' rfl]
+
+/-- the raw extension header has no reserved bits (the header_ext_len byte is regenerated from
+    the payload length). -/
+theorem maskReserved_id (b : Bytes) : maskReserved .ipv6RawExt b = b := rfl
+
+theorem decoded_wf (b : Bytes) (h : Ipv6RawExtHeader) (rest : Bytes)
+    (hd : Ipv6RawExtHeader.fromSlice b = .ok (h, rest)) : h.WF := by
+  obtain ⟨hlen, hfull, rfl, rfl⟩ := fromSlice_ok b h rest hd
+  have := bAt_lt b 1
+  refine ⟨bAt_lt _ _, ?_, ?_, ?_⟩ <;> simp <;> omega
+
+/-- re-encoding an accepted byte string reproduces its first `(hdr_ext_len+1)*8` bytes exactly,
+    and decoding again gives the same value. -/
+theorem encode_decode (b : Bytes) (h : Ipv6RawExtHeader) (rest : Bytes)
+    (hd : Ipv6RawExtHeader.fromSlice b = .ok (h, rest)) :
+    h.toBytes = maskReserved .ipv6RawExt (b.take h.headerLen) ∧
+      Ipv6RawExtHeader.fromSlice (h.toBytes ++ rest) = .ok (h, rest) := by
+  have hwf := decoded_wf b h rest hd
+  refine ⟨?_, decode_encode _ _ hwf⟩
+  rw [headerLen_eq h hwf, maskReserved_id]
+  obtain ⟨hlen, hfull, rfl, rfl⟩ := fromSlice_ok b h rest hd
+  have hlt := bAt_lt b 1
+  have hL : 2 + ((b.take ((bAt b 1 + 1) * 8)).drop 2).length = (bAt b 1 + 1) * 8 := by
+    simp; omega
+  simp only [hL]
+  obtain ⟨b0, b, rfl⟩ := exists_cons b (by omega)
+  obtain ⟨b1, b, rfl⟩ := exists_cons b (by simp at hlen; omega)
+  simp only [bAt_cons_zero, bAt_cons_succ] at hfull hlt ⊢
+  simp only [List.length_cons] at hfull
+  obtain ⟨m, hm⟩ : ∃ m, (b1.toNat + 1) * 8 = m + 2 := ⟨(b1.toNat + 1) * 8 - 2, by omega⟩
+  simp only [hm, List.take_succ_cons, List.drop_succ_cons, List.drop_zero]
+  exact toBytes_decoded _ _ _ (by simp; omega)
+
+/-- the `unwrap()` inside `to_header` cannot fail for any input of `from_slice`. -/
+theorem no_unwrap_panic (b : Bytes) : Ipv6RawExtHeader.fromSlice b ≠ .error .panicUnwrap :=
+  fromSlice_no_panic b
+
+/-- slice type and struct decoder agree: same errors, `to_header()` succeeds and is the decoded
+    struct, the slice is the consumed prefix. -/
+theorem slice_eq_struct (b : Bytes) :
+    (Ipv6RawExtHeader.fromSlice b).map (fun r => (some r.1, r.2)) =
+      (Ipv6RawExtHeaderSlice.fromSlice b).map (fun s => (s.toHeader, b.drop s.slice.length)) := by
+  unfold Ipv6RawExtHeader.fromSlice
+  cases hs : Ipv6RawExtHeaderSlice.fromSlice b with
+  | error e => rfl
+  | ok s =>
+    obtain ⟨h8, hfull, hsl⟩ := sliceFromSlice_ok b s hs
+    have hlt := bAt_lt b 1
+    have hl : s.slice.length = (bAt b 1 + 1) * 8 := by rw [hsl]; simp; omega
+    simp only [toHeader_eq s (by omega) (by omega) (by omega), Except.map]
+
+example : Ipv6RawExtHeader.sampleMax.payload.length = 2046 := List.length_replicate
+example : Ipv6RawExtHeader.WF Ipv6RawExtHeader.sampleMax := by
+  have hl : Ipv6RawExtHeader.sampleMax.payload.length = 2046 := List.length_replicate
+  refine ⟨by decide, ?_, ?_, ?_⟩ <;> rw [hl] <;> decide
+
+end RawExt
 
 end EpModel.Props.C08Net
